@@ -157,6 +157,11 @@ def transport(F):
         want = {"value": ["%s_correlation" % x, "%s_reference" % x], "ln": ["%s_correlation" % x], "ref": ["%s_reference" % x]}[kind]
         iid = "transport|%s" % name
         problems = []
+        via_state = sorted({callee(t)[2] for bi, t in b.calls() if "State" in str(callee(t)[0]) and callee(t)[2] in ("%s_reference" % x, "ln_%s_reduced" % x)})
+        if kind == "value" and not names and set(via_state) == {"%s_reference" % x, "ln_%s_reduced" % x}:
+            # X = X_reference() * exp(ln_X_reduced()): assembled from the State's own getters of the same property, which are
+            # judged as instances of their own
+            names = want
         if names != want:
             problems.append("calls EntropyScaling::%s, expected %s" % (names, want))
         if kind == "value" and not has_exp:
@@ -196,6 +201,9 @@ def transport(F):
                     p, tr, cn = callee(t)
                     if cn in TRANSPORT and "state::State" in p.replace("feos_core::State", "state::State") or (cn in TRANSPORT and "State" in p):
                         called.add(cn)
+                    for a_ in t["args"]:       # `predict_pure_property(.., State::viscosity)`
+                        if a_.get("k") == "const" and "fn" in a_ and a_["fn"].get("name") in TRANSPORT and "State" in str(a_["fn"].get("path")):
+                            called.add(a_["fn"]["name"])
             iid = "dataset|%s" % tname
             if called != {x}:
                 r.inst(iid, b.file_line(), "violation")
